@@ -225,4 +225,131 @@ def checkTwin (ctor opn : Entry) (swapped : Bool) : Bool :=
      if swapped then a == b.map (Expr.renameVars fun j => if j < n then m + j else j - n) else a == b
    | _, _, _ => false)
 
+/-! ### Precision changes (C16) and memory/accessor behaviour (C17) -/
+
+def isCastOfVar (fm ufm : Fm) (j : Nat) : Expr → Bool
+  | .cast f (.var i g) => f == fm && g == ufm && i == j
+  | _ => false
+
+def classIsDirection (classes : List ClassInfo) (c : Nat) : Bool :=
+  match classes[c - 1]? with
+  | some ci => c != 0 && ci.isDirection
+  | none => false
+
+/-- C16 for one entry: a converting constructor / assignment is `cast` of each component, in its
+slot, and nothing else. (The converting *constructor* of the direction classes re-normalises; it is
+covered by `checkDirCast` against the normalising constructor instead.) -/
+def checkCast (classes : List ClassInfo) (e : Entry) : Bool :=
+  !(e.kind == .castCtor || e.kind == .castAssign) ||
+  (match e.ufm with
+   | none => false
+   | some u =>
+     if classIsDirection classes e.cls && e.kind == .castCtor then true
+     else match e.numOuts, e.argSizes with
+       | some outs, [n] =>
+         e.kind == .castCtor && outs.length == n && allIdx outs (fun i ex => isCastOfVar e.fm u i ex)
+       | some outs, [n, m] =>
+         e.kind == .castAssign && n == m && outs.length == n &&
+           allIdx outs (fun i ex => isCastOfVar e.fm u (n + i) ex)
+       | _, _ => false)
+
+namespace Expr
+/-- Substitute expressions for input variables. -/
+def subst (σ : Nat → Expr) : Expr → Expr
+  | var i _ => σ i
+  | un op f a => un op f (subst σ a)
+  | bin op f a b => bin op f (subst σ a) (subst σ b)
+  | powi f n a => powi f n (subst σ a)
+  | cast f a => cast f (subst σ a)
+  | e => e
+end Expr
+
+def Out.subst (σ : Nat → Expr) : Out → Out
+  | .num e => .num (e.subst σ)
+  | o => o
+
+namespace DTree
+def subst (σ : Nat → Expr) : DTree → DTree
+  | leaf outs => leaf (outs.map (Out.subst σ))
+  | node op a b y n => node op (a.subst σ) (b.subst σ) (subst σ y) (subst σ n)
+  | unexplored => unexplored
+
+def beq : DTree → DTree → Bool
+  | leaf a, leaf b => a == b
+  | node o a b y n, node o' a' b' y' n' => o == o' && a == a' && b == b' && beq y y' && beq n n'
+  | unexplored, unexplored => true
+  | _, _ => false
+
+def readsUninit : DTree → Bool
+  | leaf outs => outs.any fun o => match o with
+    | .num e => e.readsUninit
+    | .str parts => parts.any fun p => match p with | .num e => e.readsUninit | _ => false
+    | _ => false
+  | node _ a b y n => a.readsUninit || b.readsUninit || readsUninit y || readsUninit n
+  | unexplored => false
+end DTree
+
+/-- The converting constructor of a direction class is: cast every component, then normalise —
+i.e. exactly the normalising constructor's decision tree with `cast fm (var i u)` for input `i`. -/
+def checkDirCast (castE normE : Entry) : Bool :=
+  castE.fm == normE.fm &&
+  (match castE.ufm with
+   | some u => DTree.beq castE.tree (normE.tree.subst fun i => .cast castE.fm (.var i u))
+   | none => false)
+
+def isPosZero : Expr → Bool
+  | .lit _ false 0 _ => true
+  | .cast _ (.lit _ false 0 _) => true
+  | _ => false
+
+def isVar (j : Nat) : Expr → Bool
+  | .var i _ => i == j
+  | _ => false
+
+def classComps (classes : List ClassInfo) (c : Nat) : Nat :=
+  match classes[c - 1]? with
+  | some ci => if c = 0 then 0 else ci.comps
+  | none => 0
+
+/-- C17 (behavioural half) for one entry: `Zero()` is `+0` in every slot; the value accessors
+return exactly the stored numbers; the mutators store exactly their argument. -/
+def checkAccess (classes : List ClassInfo) (e : Entry) : Bool :=
+  let n := classComps classes e.cls
+  match e.mem, e.numOuts with
+  | .zero, some outs => outs.length == n && outs.all isPosZero
+  | .value, some outs => outs.length == n && allIdx outs (fun i ex => isVar i ex)
+  | .allComps, some outs => outs.length == n && allIdx outs (fun i ex => isVar i ex)
+  | .comp k, some outs => (match outs with | [ex] => k < n && isVar k ex | _ => false)
+  | .setValue, some outs => outs.length == n && allIdx outs (fun i ex => isVar (n + i) ex)
+  | .mutableValue, some outs => outs.length == n && allIdx outs (fun i ex => isVar (n + i) ex)
+  | .setAll, some outs => outs.length == n && allIdx outs (fun i ex => isVar (n + i) ex)
+  | .mutAll, some outs => outs.length == n && allIdx outs (fun i ex => isVar (n + i) ex)
+  | .setComp k, some outs =>
+    outs.length == n && k < n && allIdx outs (fun i ex => if i == k then isVar n ex else isVar i ex)
+  | .mutComp k, some outs =>
+    outs.length == n && k < n && allIdx outs (fun i ex => if i == k then isVar n ex else isVar i ex)
+  | .zero, none => false
+  | .value, none => false
+  | .allComps, none => false
+  | .comp _, none => false
+  | .setValue, none => false
+  | .mutableValue, none => false
+  | .setAll, none => false
+  | .mutAll, none => false
+  | .setComp _, none => false
+  | .mutComp _, none => false
+  | _, _ => true
+
+/-- C17 (static half): the object is exactly `comps` numbers of its numeric type — no padding, no
+hidden state, no vptr — trivially copyable and standard-layout. -/
+def checkLayout (classes : List ClassInfo) (r : LayoutRow) : Bool :=
+  let n := classComps classes r.cls
+  (n == 1 || n == 2 || n == 3 || n == 6 || n == 9) &&
+  r.size == n * r.numSize && r.align == r.numSize && r.triviallyCopyable && r.standardLayout &&
+  !r.polymorphic &&
+  r.numSize == (match r.fm with | .f32 => 4 | .f64 => 8 | .f80 => 16)
+
+/-- No entry point reads a default-initialised (indeterminate) number. -/
+def checkNoUninit (e : Entry) : Bool := !e.tree.readsUninit
+
 end PhQVerif
